@@ -23,6 +23,8 @@ import time
 import traceback
 
 VERIF = pathlib.Path(__file__).resolve().parent.parent
+#: evidence/ and replays/ go here (redirected for runs against seeded changes)
+OUT = pathlib.Path(os.environ.get("VERIF_OUT") or VERIF)
 PY = sys.executable
 
 
@@ -99,11 +101,16 @@ def load_prop(pid):
 
 
 def load_known(pid):
-    p = VERIF / "known_findings.json"
-    if not p.exists():
-        return []
-    data = json.loads(p.read_text())
-    return [f for f in data.get("findings", []) if f["property"] == pid]
+    """findings of `pid` from known_findings.json (+ known_findings.d/*.json,
+    the per-property inbox that is merged into the main file when triaged)"""
+    out = []
+    files = [VERIF / "known_findings.json"]
+    files += sorted((VERIF / "known_findings.d").glob("*.json"))
+    for p in files:
+        if p.exists():
+            data = json.loads(p.read_text())
+            out += [f for f in data.get("findings", []) if f["property"] == pid]
+    return out
 
 
 def classify_exception(exc, repo):
@@ -328,7 +335,7 @@ def write_evidence(prop, tier, seed, cov, wall, violations, assumptions):
         "coverage": cov, "assumptions": assumptions,
         "wall_s": round(wall, 2), "violations": violations,
     }
-    d = VERIF / "evidence"
+    d = OUT / "evidence"
     d.mkdir(exist_ok=True)
     (d / f"{prop.ID}.json").write_text(
         json.dumps(ev, indent=1, allow_nan=False, default=_default) + "\n")
@@ -462,7 +469,7 @@ def main(argv):
     rc = 0
     if violations:
         rc = 1
-        rdir = VERIF / "replays" / pid
+        rdir = OUT / "replays" / pid
         rdir.mkdir(parents=True, exist_ok=True)
         for sig, f in sorted(violations.items()):
             path = rdir / (h12(sig) + ".json")
